@@ -30,7 +30,7 @@ def plan(tier):
 
 def required_counters(tier):
     return ["unsorted_first_appearance", "unused_category", "observed_only_false", "sort_false", "multi_column", "column_independence_checked",
-            "names_checked", "non_string_value_label", "falsy_value_label", "unobserved_label", "observed_chunked_keys"] + [f"shape:{s}" for s in SHAPES]
+            "names_checked", "complement_mask_second_call", "non_string_value_label", "falsy_value_label", "unobserved_label", "observed_chunked_keys"] + [f"shape:{s}" for s in SHAPES]
 
 
 def features(case):
@@ -212,6 +212,21 @@ def check(case, ctx):
             if list(res.iloc[:, j].index) != list(one.index) and cmp.labels_of(res.index) != cmp.labels_of(one.index):
                 fails.append({"monitor": "c11.column", "sig": sig + "|order", "detail": f"{op}: column {j} label order differs from the single-input call"})
                 break
+    # ---- the listed labels follow the mask's CONTENTS: same grouping, same mask buffer refilled in place with the complementary rows
+    if not fails and case["observed_only"] and isinstance(mask, np.ndarray) and mask.dtype == bool and op != "size":
+        sel2 = [i for i in range(n) if not mask[i]]
+        np.logical_not(mask, out=mask)
+        res2 = lib.call(getattr(gb, op), values, mask=mask)
+        np.logical_not(mask, out=mask)
+        ctx.count("complement_mask_second_call")
+        if lib.raised(res2):
+            if sel2 and model.group_rows(lk, sel2):
+                fails.append({"monitor": "c11.raised", "sig": sig + "|second_call", "detail": f"{op}: the second call on the same grouping (complementary mask) raised {res2!r}"})
+        else:
+            got2, want2 = set(cmp.labels_of(res2.index)), set(model.group_rows(lk, sel2))
+            if got2 != want2:
+                fails.append({"monitor": "c11.labels", "sig": sig + "|second_call", "detail": f"{op}: second call on the same grouping with the mask buffer refilled (complementary rows): labels "
+                                                                                          f"{sorted(got2 ^ want2, key=repr)[:4]} differ from the labels with a selected row"})
     return fails
 
 
